@@ -297,9 +297,6 @@ func c15Run(w *core.W) {
 	w.Family("instruction-encoding")
 	bounds := []int{-32768, -1, 0, 1, 32767}
 	for op := 0; op < 128; op++ {
-		if op%w.N != w.Shard {
-			continue
-		}
 		if !w.Mine(fmt.Sprint("op ", op)) {
 			continue
 		}
